@@ -386,6 +386,11 @@ class T4Any(object):
             if off > len(f):
                 return b'\x6B\x00'
             return f[off:off + le] + b'\x90\x00'
+        if ins == 0xD6:
+            if not data or off + len(data) > len(f):
+                return b'\x6A\x84'
+            self.files[self.sel] = f[:off] + data + f[off + len(data):]
+            return b'\x90\x00'
         return b'\x6D\x00'
 
     # ---- block level
@@ -421,6 +426,22 @@ class T4Any(object):
                 return self.iblock()
             return None
         return None
+
+
+class T4ApduAdv(T4Any):
+    """a card whose ISO-DEP layer behaves, that answers the first `good` APDUs like T4Any and EVERY later APDU, for ever,
+    with the same response `answer` (data + status word, or any other byte string)"""
+
+    def __init__(self, good, answer, **kw):
+        T4Any.__init__(self, **kw)
+        self.good_apdus = good
+        self.answer = bytes(answer)
+
+    def apdu(self, apdu):
+        if self.napdu >= self.good_apdus:
+            self.napdu += 1
+            return self.answer
+        return T4Any.apdu(self, apdu)
 
 
 class T4Adv(object):
